@@ -11,7 +11,9 @@ import (
 type MemRange struct{ Lo, Hi uintptr }
 
 // Overlaps reports whether two ranges intersect.
-func (r MemRange) Overlaps(o MemRange) bool { return r.Lo < o.Hi && o.Lo < r.Hi && r.Lo < r.Hi && o.Lo < o.Hi }
+func (r MemRange) Overlaps(o MemRange) bool {
+	return r.Lo < o.Hi && o.Lo < r.Hi && r.Lo < r.Hi && o.Lo < o.Hi
+}
 
 // Globals is the monitor over every package-level variable of the module
 // under test (the list is generated from the current tree's AST).
